@@ -175,6 +175,8 @@ func c16R1(c *Ctx, rule string) {
 	for _, s := range c.P.CallsEverywhere(engine.Is("(*NetworkTransport).genericRPC")) {
 		k := c.P.Arg(s.Instr, 2)
 		sender[k] = append(sender[k], pair{ifaceArgType(c, engine.ArgValue(s.Instr, 3)), ifaceArgType(c, engine.ArgValue(s.Instr, 4)), c.P.Name(s.Fn)})
+		got := c.P.Arg(s.Instr, 0) + ", " + c.P.Arg(s.Instr, 1) + ", _, " + c.P.Arg(s.Instr, 3) + ", " + c.P.Arg(s.Instr, 4)
+		c.Check(rule, "forwards-callers-objects "+c.P.Name(s.Fn), c.P.InstrPos(s.Instr), "the transport method sends the caller's own request to the caller's target and decodes into the caller's own response object", got == "p1, p2, _, p3, p4", "genericRPC("+got+")", 1)
 	}
 	// direct sendRPC users
 	for _, s := range c.P.CallsEverywhere(engine.Is("sendRPC")) {
